@@ -24,14 +24,34 @@ def gen_line_world(rng):
     wg.gen_globals(rng, ctx, doc, exotic=False, force_surface=False)
     ftype = rng.choice(['subducting plate', 'subducting plate', 'fault'])
     where = None
+    zero = False
     if sph:
         mode = rng.random()
         if mode < 0.3:
             where = (wg.R(rng.choice([-1, 1]) * rng.uniform(172, 180)), wg.R(rng.uniform(-50, 50)), wg.R(rng.uniform(3, 10)))
         elif mode < 0.55:
             where = (wg.R(rng.uniform(-170, 170)), wg.R(rng.choice([-1, 1]) * rng.uniform(70, 86)), wg.R(rng.uniform(1, 3)))
+        elif mode < 0.75:
+            # around the zero meridian but written next to +-360: the body reaches beyond the written trace, so points on
+            # either side of longitude 0 belong to it and each needs its own alias (lon-360 resp. lon+360) to be found
+            zsize = rng.uniform(1.5, 4)
+            where = (wg.R(rng.choice([-1, 1]) * (360.0 - 0.95 * zsize - rng.uniform(0.0, 1.0))), wg.R(rng.uniform(-50, 50)), wg.R(zsize))
+            zero = True
     f, t = wg.gen_line_feature(rng, ctx, ftype, 0, 2, {'sections': rng.random() < 0.3, 'segment_models': False, 'p_temperature': 1.0, 'p_composition': 1.0, 'p_grains': 0.3, 'p_velocity': 0.3,
                                                         'allow_temperature': ['uniform', 'linear', 'adiabatic', 'plate model'], 'max_bend': 40.0}, where)
+    if zero:
+        # a roughly meridional trace 0.1-1 degree from +-360, dipping towards the zero meridian (dip point at +-360) or away from it
+        sgn = 1.0 if where[0] > 0 else -1.0
+        n = len(f['coordinates'])
+        lat0, span = where[1], where[2]
+        lon0 = 360.0 - rng.uniform(0.1, 1.0)
+        tr = []
+        for k in range(n):
+            tr.append([wg.R(sgn * min(359.95, lon0 + rng.uniform(-0.05, 0.05) * k)), wg.R(lat0 - 0.5 * span + span * k / (n - 1.0))])
+        f['coordinates'] = tr
+        dip = [sgn * 360.0, wg.R(lat0)] if rng.random() < 0.7 else [wg.R(sgn * (lon0 - 5.0)), wg.R(lat0)]
+        f['dip point'] = dip
+        t = dict(t, trench=[tuple(q) for q in tr], dip=tuple(dip))
     # make the bounds tight
     style = rng.choice(['deep-start', 'shallow-dip', 'steep', 'negative-truncation', 'plain', 'short-thick', 'widening'])
     segs = f['segments']
@@ -152,7 +172,7 @@ def gen_line_world(rng):
             sy = max(-89.9, min(89.9, sy))
             sx = ((sx + 180.0) % 360.0) - 180.0
         pts.append((sx, sy, max(0.0, d)))
-    return doc, ctx, pts, {'class': 'line:' + style + (':spherical' if sph else ':cartesian'), 'ftype': ftype}
+    return doc, ctx, pts, {'class': 'line:' + style + (':spherical' if sph else ':cartesian') + (':written-next-to-360' if zero else ''), 'ftype': ftype}
 
 
 def gen_area_world(rng):
